@@ -98,6 +98,9 @@ func c03Calls() []fsx.Op {
 		// through the links of e1 into the other branch: the refusal, and its errno, is that of the kernel (MkdirAll on a
 		// link it cannot follow answers "exists", whatever stops it behind the link)
 		{K: "MkdirAll", P: c03E1 + "/lx", Perm: 0o755}, {K: "MkdirAll", P: c03E1 + "/ld/n1", Perm: 0o755}, {K: "MkdirAll", P: c03E1 + "/lx/n1", Perm: 0o755}, {K: "Stat", P: c03E1 + "/ld"}, {K: "ReadDir", P: c03E1 + "/ld"}, {K: "ReadFile", P: c03E1 + "/lx"},
+		// moves of directories: to another parent (the moved directory itself has to be writable), below itself (refused
+		// as such before any permission of the moved directory is looked at), onto an existing directory
+		{K: "Rename", P: c03D2, Q: c03E1 + "/m"}, {K: "Rename", P: c03D1, Q: c03D2 + "/into"}, {K: "Rename", P: c03D2, Q: c03D2 + "/self"}, {K: "Rename", P: c03D2, Q: c03E1}, {K: "Rename", P: c03E1, Q: c03D2 + "/e"}, {K: "Rename", P: c03D2, Q: c03D1 + "/m2"},
 	}
 }
 
